@@ -270,7 +270,7 @@ def known_match(v, findings):
     return None
 
 
-def validate(prog, rng, n):
+def validate(prog, rng, n, rep=None):
     alphabet = '017+-.eE_x '
     cases = []
     for i in range(n):
@@ -282,6 +282,12 @@ def validate(prog, rng, n):
     mism = []
     S.DIGIT_BOUND[0] = 60
     for s, nat in zip(cases, outs):
+        if rep is not None:
+            ref = py_ref(s)
+            exp = 'Err' if ref is None else H.dec_str(*ref)
+            if nat != exp:
+                H.probe_violation(rep, PROP, 'native parse of %r gives %s, reference %s' % (s, nat, exp), {'kind': 'probe'}, {'string': s}, nat)
+                continue
         m = E.Machine(prog, (), [], E.Stats(), loop_bound=4000)
         try:
             r = call_parse(m, [ord(ch) for ch in s])
@@ -323,7 +329,7 @@ def main(tier):
                        'i128::from_str and BigInt::from_str_radix acceptance rules as summarised (std; num-bigint 0.4)', 'str::from_utf8 in parse_bytes is std']
     rep.outside = ['arbitrary strings longer than the bound', 'parse_bytes UTF-8 validation itself']
     sys.stderr.write('[C05] %d tasks\n' % len(tasks))
-    rep.validated, rep.validation_mismatches = validate(prog, rng, 400 if tier == 'quick' else 4000)
+    rep.validated, rep.validation_mismatches = validate(prog, rng, 400 if tier == 'quick' else 4000, rep)
     results = H.run_parallel(tasks, worker, progress=20)
     rep.add(results)
     findings = H.load_known_findings(PROP)
